@@ -84,6 +84,17 @@ class RngWorld(World):
         rng = mk_rng(self.name + ":" + config, seed)
         small = config == "nojit"
         pool = [self._argset(rng, small) for _ in range(rng.randint(1, 3))]
+        # same geometry, different seed / tol / max_attempts: anything remembered per geometry
+        # between calls would leak from one into the other
+        if len(pool) > 1 and rng.random() < 0.6:
+            for j in range(1, len(pool)):
+                v = dict(pool[0])
+                v["seed"] = rng.choice([s_ for s_ in [0, 1, 2, 3, 7, 80, 12345] if s_ != pool[0]["seed"]])
+                if rng.random() < 0.4:
+                    v["tol"] = rng.choice([0.05, 0.1, 0.2, 0.3])
+                if rng.random() < 0.3:
+                    v["max_attempts"] = rng.choice([5, 10, 30])
+                pool[j] = v
         sched = []
         nact = rng.randint(4, 8) if small else rng.randint(6, 14)
         npoisson = 0
